@@ -433,6 +433,20 @@ def norm_list(par, l):
     return out
 
 
+def numeric(j):
+    """identify an integral float with the int of the same value"""
+    if isinstance(j, dict):
+        if set(j) == {"f"}:
+            neg, mant, exp = j["f"]
+            if int(exp) >= 0:
+                return {"i": str((-1 if neg else 1) * int(mant) * 10 ** int(exp))}
+            return j
+        return {k: numeric(v) for k, v in j.items()}
+    if isinstance(j, list):
+        return [numeric(x) for x in j]
+    return j
+
+
 # --- reference interpreter (call-by-value on the UNEXPANDED circuit; independent of the Lean side)
 
 class RefError(Exception):
@@ -723,7 +737,10 @@ def oracles(case, res, out):
             return any(reach(x) for x in s.statements)
 
         if reach(c.body):
-            rec("C04_arity", em == {"err": "JaqalError"}, f"got {json.dumps(em)[:200]}")
+            # rejected; the class is JaqalError unless a statement expanded earlier fails first with its own error
+            rec("C04_arity", "err" in em, f"got {json.dumps(em)[:200]}")
+            if "err" in em and em["err"] != "JaqalError":
+                rec("C04_arity(info: an ill-typed call expanded earlier escaped as " + em["err"] + ")", True)
     es = res["es"]
     if "ok" in es:
         d2 = es["ok"]
@@ -811,7 +828,12 @@ def run(seed: int, n: int, driver: str = DEFAULT_DRIVER, thorough: bool = False)
         if "ok" in im and "ok" in m_me:
             corr["meaning"]["cases"] += 1
             if im["ok"] != m_me["ok"]:
-                corr["meaning"]["disagreements"].append({"case": slim, "model": m_me, "impl": im})
+                if numeric(im["ok"]) == numeric(m_me["ok"]):
+                    # fill_in_let rebuilds the circuit through the builder, whose gate memo identifies `G 2.0` with an
+                    # earlier `G 2` (equal keys): the argument comes back as the int.  Same number, other Python type.
+                    dist["meaning: equal up to int/float type of a number (builder gate memo)"] += 1
+                else:
+                    corr["meaning"]["disagreements"].append({"case": slim, "model": m_me, "impl": im})
             dist["meaning: both defined"] += 1
         elif "ok" in im:
             dist["meaning: implementation accepts, spec undefined (" + m_me["err"] + ")"] += 1
